@@ -260,8 +260,7 @@ def cli_history_check(items, budget, dist):
 
     def start(cfg, name, tf):
         with open(tf, "wb") as f:
-            for p in cfg["passwords"]:
-                f.write(p.encode(cfg["encoding"], errors="surrogateescape") + b"\n")
+            f.write(ol.training_bytes(cfg["passwords"], None, cfg["encoding"]))
         cmd = [common.PY, "trainer.py", "-t", tf, "-r", name, "-e", cfg["encoding"], "-n", str(cfg["ngram"]),
                "-a", str(cfg["alphabet_size"]), "-c", repr(cfg.get("coverage", 0.6))]
         return subprocess.Popen(cmd, cwd=code, env=env, stdin=subprocess.DEVNULL, stdout=subprocess.DEVNULL, stderr=subprocess.PIPE)
@@ -332,7 +331,7 @@ def retrain_histories(ctx, sc_dir, budget, dist, seen):
     vio = []
     nontrivial = 0
     n = ctx.scale(24, 300)
-    kinds = ["mixed", "big", "len_eq_ngram", "nonascii", "long", "single_len", "dup_heavy", "sparse_alphabet"]
+    kinds = ["mixed", "big", "len_eq_ngram", "nonascii", "long", "single_len", "dup_heavy", "sparse_alphabet", "non_nfc", "blanks"]
     for i in range(n):
         h = ol.gen_retraining(ctx.rng, kinds[i % len(kinds)] if i < 2 * len(kinds) else None,
                               variant="ngram" if i % 3 == 0 else None)
@@ -382,7 +381,8 @@ def run(ctx):
     dist = Counter(dist)            # (the history stage counts under keys of its own)
     seen, nontrivial = set(), 0
     missing_consts = set()
-    kinds = ["len_eq_ngram", "single_len", "big", "mixed", "long", "dup_heavy", "sparse_alphabet", "nonascii"]
+    kinds = ["len_eq_ngram", "single_len", "big", "mixed", "long", "dup_heavy", "sparse_alphabet", "nonascii", "non_nfc",
+             "odd", "blanks"]          # (n-grams that end in a blank / a separator a reader might strip: every run has them)
     for i in range(n):
         cfg = ol.gen_training(ctx.rng, kinds[i % len(kinds)] if i < 3 * len(kinds) else None)
         try:
@@ -461,7 +461,9 @@ def run(ctx):
         else:
             corr.append(("omen-keyspace:" + name, True, ""))
     rule = ("generated training lists as C11 with the families 'dominated by length = n-gram', 'single length' (length cost 0) "
-            "and 'big' (IP levels 1..9) first; per model calc_omen_keyspace with the default bounds, then with a small "
+            "and 'big' (IP levels 1..9) first, and 'non_nfc' (utf-8 / utf-16 / utf-16-le text that is not in Unicode normal form C - combining marks after "
+            "their base letter, singletons, Hangul jamo, CJK compatibility ideographs - next to its NFC twin, passwords at least as long "
+            "as the n-gram), 'odd' / 'blanks' (U+2029, NO-BREAK SPACE, ASCII and ideographic space inside and at the end of n-grams); per model calc_omen_keyspace with the default bounds, then with a small "
             "max_keyspace on the warm and on a cold cache; the files written by the real writer; per listed level the value of "
             "omen_keyspace.txt against the number of DISTINCT strings the real MarkovCracker emits at that target level "
             "(levels above the size/time cap are counted as not enumerated) and pcfg_omen_prob.txt against (count/N)/that "
